@@ -392,6 +392,8 @@ def analyse(src, disable=()):
 
 
 DIRECTIVE_ERRORS = ("invalid-directive", "late-directive")
+import re as _re
+M_IGNORE_RE = _re.compile(r"^ignore(\[.+\])?$")    # parser.IGNORE_RE (monitor/classification only)
 
 
 def classify_e2e(ed, info, before, after, groups_new, table, live, dropped=(), fn_ends=()):
@@ -414,10 +416,15 @@ def classify_e2e(ed, info, before, after, groups_new, table, live, dropped=(), f
     starts = set()
     base = [(s, e) for c in new_comments(ed, info) for ic, s, e in groups_with_comment(groups_new, c) if not ic]
   remaining = [t for t in A if is_target(t)]
-  unfilterable = [t for t in remaining if t[1] in DIRECTIVE_ERRORS]
+  # a type comment in the middle of an expression is reported by Director._process_type itself, i.e. also
+  # while the Director is being constructed (before the filter exists)
+  mid_type = {cc[0] for ic, s, e, cs in groups_new if not ic for cc in cs
+              if cc[1] == "type" and not M_IGNORE_RE.match(cc[2]) and cc[0] != e}
+  unfilterable = [t for t in remaining if t[1] in DIRECTIVE_ERRORS or
+                  (t[1] == "ignored-type-comment" and t[0] in mid_type)]
   if unfilterable:
     out.append(("directive-errors-unfilterable", f"still reported after the edit: {[t[:2] for t in unfilterable][:2]}"))
-    remaining = [t for t in remaining if t[1] not in DIRECTIVE_ERRORS]
+    remaining = [t for t in remaining if t not in unfilterable]
   if remaining:
     later_enable = k == "trailing" and any(
         cc[1] == "pytype" and not cc[3] and cc[0] != L and mentions(cc[2], "enable", E) and s == L
